@@ -5,6 +5,7 @@ from .sorts import *      # noqa
 from . import types as Ty
 from . import front
 from .front import Unsupported
+from .state import tid, sel_L
 from .state import (SV, State, const_sv, truthy, shape, field_type, KIND, CLS, cls_in, new_list, new_dict,
                     new_exception, new_instance, new_list_from_seq, alloc, elem_type, int_of, str_of, val_of,
                     GHOSTS, CLASS_DECL)
@@ -370,7 +371,7 @@ class ExecExpr(ExecCore):
             items = list(zip(vals[0::2], vals[1::2]))
             d = new_dict(c, items)
             if all(k.has_py for k, _ in items):
-                c.notes[('keys', str(d.term))] = [k.py for k, _ in items]
+                c.notes[('keys', tid(d.term))] = [k.py for k, _ in items]
             out.append((c, d))
         return out, raises
 
@@ -620,7 +621,7 @@ class ExecExpr(ExecCore):
                 return [(st, const_sv(a.py + b.py))], []
             return [(st, SV(VStr(z3.Concat(str_of(a), str_of(b))), Ty.STR))], []
         if isinstance(op, ast.Add) and isinstance(ta, Ty.TList) and isinstance(tb, Ty.TList):
-            seq = z3.Concat(st.L[va(a.term)], st.L[va(b.term)])
+            seq = z3.Concat(sel_L(st, va(a.term)), sel_L(st, va(b.term)))
             return [(st, new_list_from_seq(st, seq, Ty.join(ta.t, tb.t)))], []
         if isinstance(op, ast.Mod) and isinstance(ta, Ty.TStr):
             return [(st, self.percent_format(st, a, b))], []
@@ -648,10 +649,10 @@ class ExecExpr(ExecCore):
             if _re.sub(r'%[sd%]', '', fmt.py).count('%') == 0:
                 aty = Ty.strip_opt(arg.ty)
                 if isinstance(aty, Ty.TTuple):
-                    if arg.has_py is False and ('elems', str(arg.term)) in st.notes:
-                        args = st.notes[('elems', str(arg.term))]
+                    if arg.has_py is False and ('elems', tid(arg.term)) in st.notes:
+                        args = st.notes[('elems', tid(arg.term))]
                     else:
-                        args = [SV(st.L[va(arg.term)][i], t) for i, t in enumerate(aty.ts)]
+                        args = [SV(sel_L(st, va(arg.term))[i], t) for i, t in enumerate(aty.ts)]
                 elif isinstance(aty, Ty.TDict):
                     args = None
                 else:
@@ -795,8 +796,8 @@ class ExecExpr(ExecCore):
         if isinstance(ta, Ty.TList) and isinstance(tb, Ty.TList) and (is_prim(ta.t) or is_prim(tb.t)):
             # lists of primitive values compare element-wise
             both = And(is_ref(a.term), is_ref(b.term))
-            return And(both, st.L[va(a.term)] == st.L[va(b.term)]) if not (isinstance(a.ty, Ty.TOpt) or isinstance(b.ty, Ty.TOpt)) \
-                else z3.If(both, st.L[va(a.term)] == st.L[va(b.term)], a.term == b.term)
+            return And(both, sel_L(st, va(a.term)) == sel_L(st, va(b.term))) if not (isinstance(a.ty, Ty.TOpt) or isinstance(b.ty, Ty.TOpt)) \
+                else z3.If(both, sel_L(st, va(a.term)) == sel_L(st, va(b.term)), a.term == b.term)
         for x in (a, b):
             t = Ty.strip_opt(x.ty)
             if isinstance(t, (Ty.TList, Ty.TDict, Ty.TTuple, Ty.TSet)):
@@ -835,7 +836,7 @@ class ExecExpr(ExecCore):
         if isinstance(ty, (Ty.TList, Ty.TTuple)):
             if not is_prim(elem_type(ty)) and not isinstance(elem_type(ty), Ty.TAny) and not is_prim(x.ty):
                 raise Unsupported('`in` over a list of non-primitive values (line %d)' % node.lineno)
-            return [(st, B(z3.Contains(st.L[va(cont.term)], z3.Unit(x.term))))], []
+            return [(st, B(z3.Contains(sel_L(st, va(cont.term)), z3.Unit(x.term))))], []
         if isinstance(ty, Ty.TStr):
             if not isinstance(Ty.strip_opt(x.ty), Ty.TStr):
                 raise Unsupported('`in` str with a non-str left operand')
@@ -900,7 +901,7 @@ class ExecExpr(ExecCore):
             sub = z3.SubString(s, l, z3.If(h > l, h - l, 0))
             return SV(VStr(sub) if isinstance(ty, Ty.TStr) else VBytes(sub), ty)
         if isinstance(ty, Ty.TList):
-            seq = st.L[va(base.term)]
+            seq = sel_L(st, va(base.term))
             ln = z3.Length(seq)
             l = self.clamp(lo, ln, 0)
             h = self.clamp(hi, ln, None)
@@ -965,7 +966,7 @@ class ExecExpr(ExecCore):
         if isinstance(ty, (Ty.TList, Ty.TTuple)):
             if not isinstance(Ty.strip_opt(key.ty), (Ty.TInt, Ty.TBool)):
                 raise Unsupported('list index of static type %r (line %d)' % (key.ty, node.lineno))
-            seq = st.L[va(base.term)]
+            seq = sel_L(st, va(base.term))
             ln = z3.Length(seq)
             i = self.norm_index(key, ln)
             ok, bad = self.fork(st, And(0 <= i, i < ln), None)
@@ -1014,7 +1015,7 @@ class ExecExpr(ExecCore):
             a = va(base.term)
             if not compat(v.ty, ty.v):
                 self.oblige(st, shape(st, v.term, ty.v), 'valuetype[dict-store]', 'fieldtype')
-            nk = ('keys', str(base.term))
+            nk = ('keys', tid(base.term))
             if nk in st.notes:
                 if key.has_py and isinstance(key.py, front.CONST_TYPES):
                     if key.py not in st.notes[nk]:
@@ -1026,7 +1027,7 @@ class ExecExpr(ExecCore):
             st.DV = z3.Store(st.DV, a, z3.Store(st.DV[a], key.term, v.term))
             return [st], raises
         if isinstance(ty, Ty.TList):
-            seq = st.L[va(base.term)]
+            seq = sel_L(st, va(base.term))
             ln = z3.Length(seq)
             i = self.norm_index(key, ln)
             ok, bad = self.fork(st, And(0 <= i, i < ln), None)
@@ -1054,7 +1055,7 @@ class ExecExpr(ExecCore):
             raises = [self.raised(no, 'builtins:KeyError', [key])] if no is not None else []
             if has is None:
                 return [], raises
-            nk = ('keys', str(base.term))
+            nk = ('keys', tid(base.term))
             if nk in has.notes:
                 if key.has_py and key.py in has.notes[nk]:
                     has.notes[nk] = [x for x in has.notes[nk] if x != key.py]
